@@ -48,6 +48,9 @@ thread_local! {
     static LAST_PANIC: std::cell::RefCell<String> = std::cell::RefCell::new(String::new());
 }
 
+/// the most recent panic of any thread (for reporting an engine failure of the checker itself)
+pub static LAST_PANIC_ANYWHERE: Mutex<String> = Mutex::new(String::new());
+
 pub fn install_panic_hook() {
     std::panic::set_hook(Box::new(|info| {
         let loc = info
@@ -62,6 +65,15 @@ pub fn install_panic_hook() {
             "?".into()
         };
         LAST_PANIC.with(|p| *p.borrow_mut() = format!("{} at {}", msg, loc));
+        if let Ok(mut g) = LAST_PANIC_ANYWHERE.try_lock() {
+            let line = format!("{} at {}", msg, loc);
+            if g.len() > 4000 {
+                let cut = g.len() - 2000;
+                *g = g[cut..].to_string();
+            }
+            g.push_str(" || ");
+            g.push_str(&line);
+        }
     }));
 }
 
@@ -248,6 +260,13 @@ impl Collector {
     }
     pub fn total(&self) -> u64 {
         self.total.load(Ordering::Relaxed)
+    }
+    /// keeps only the violation classes whose sub-check satisfies `keep`
+    pub fn retain(&self, keep: impl Fn(&str) -> bool) {
+        let mut m = self.map.lock().unwrap();
+        m.retain(|k, _| keep(&k.0));
+        let t: u64 = m.values().map(|e| e.0).sum();
+        self.total.store(t, Ordering::Relaxed);
     }
     pub fn classes(&self) -> Vec<(u64, u64, Violation)> {
         let m = self.map.lock().unwrap();
